@@ -145,14 +145,23 @@ func Catch(v *vrt.Ctx) {
 	mode := v.Bool("mode")
 	was := bit(st.Flags, sig)
 	rs := app.NewRes()
+	rs.Node("root", "root", app.Code().Halt().Bytes())
 	rs.Node("other", "other", app.Code().Halt().Bytes())
 	ca := cache.NewCache()
 	ca.Push()
 	vmi := vm.NewVm(st, rs, ca, render.NewSizer(0))
-	rest, err := vmi.Run(context.Background(), app.Code().Catch("other", sig, mode).Halt().Bytes())
+	// the target is a node, or the navigation symbol for "stay here" (the
+	// input-validation idiom CATCH . <flag> <mode>)
+	tgt := []string{"other", "."}[v.Choice("catch-target", 2)]
+	rest, err := vmi.Run(context.Background(), app.Code().Catch(tgt, sig, mode).Halt().Bytes())
 	v.Assert(err == nil, "C06/catch-run-ok")
 	if was == mode {
-		v.Assert(len(st.ExecPath) == 2 && st.ExecPath[1] == "other", "C06/catch-moves-when-flag-matches")
+		if tgt == "." {
+			v.Assert(len(st.ExecPath) == 1 && st.ExecPath[0] == "root", "C06/catch-moves-when-flag-matches")
+			v.Assert(len(rs.Log) > 0, "C06/catch-moves-when-flag-matches") // the node's code was fetched again
+		} else {
+			v.Assert(len(st.ExecPath) == 2 && st.ExecPath[1] == "other", "C06/catch-moves-when-flag-matches")
+		}
 		v.Cover("C06/catch-fired")
 	} else {
 		v.Assert(len(st.ExecPath) == 1 && st.ExecPath[0] == "root", "C06/catch-does-nothing-when-flag-differs")
